@@ -5,6 +5,7 @@ import (
 	"encoding/base64"
 	"encoding/hex"
 	"encoding/pem"
+	"errors"
 	"fmt"
 	"os"
 	"os/exec"
@@ -14,6 +15,8 @@ import (
 	"sort"
 	"strings"
 	"sync"
+	"sync/atomic"
+	"time"
 	"unsafe"
 
 	"verifharness/mon"
@@ -24,6 +27,7 @@ import (
 	pb "github.com/google/go-tdx-guest/proto/tdx"
 	"github.com/google/go-tdx-guest/validate"
 	"github.com/google/go-tdx-guest/verify"
+	"github.com/google/go-tdx-guest/verify/trust"
 	"google.golang.org/protobuf/proto"
 )
 
@@ -210,6 +214,24 @@ func policyFor(q *ref.Quote, spare int) *validate.Options {
 			ReportData: sp(q.ReportData), AnyMrTd: [][]byte{sp(q.MrOwner), sp(q.MrTd)},
 		},
 	}
+}
+
+// windowGetter serves scripted responses; requests for matching URLs fail until a point in time.
+type windowGetter struct {
+	resp      map[string]world.Resp
+	failUntil time.Time
+	match     func(u string) bool
+}
+
+func (g *windowGetter) Get(u string) (map[string][]string, []byte, error) {
+	if g.match(u) && time.Now().Before(g.failUntil) {
+		return nil, nil, errors.New("scripted outage")
+	}
+	r, ok := g.resp[u]
+	if !ok || r.Err != "" {
+		return nil, nil, errors.New("scripted getter: no response for " + u)
+	}
+	return r.H, r.B, nil
 }
 
 func wrapText(t string, n int) []byte {
@@ -558,6 +580,136 @@ func c16(x *mon.Ctx) {
 	x.Extra["concurrent_calls"] = calls
 	x.Extra["concurrent_rounds"] = rounds
 	x.Require("concurrent-round", rounds, 0, rounds)
+
+	// ---------------- (c') ONE quote, goroutines with DIFFERENT options (different collateral, different fetch policies): each
+	//                  goroutine's verdict is the verdict its own options give alone
+	{
+		rr := x.Rand("c16-different-options")
+		wq := world.Honest(rr, world.HonestOpts{Shape: world.QuoteShape{AuthLen: 32}})
+		variant := func(k int) *world.Case {
+			w := wq.Clone()
+			switch k % 4 {
+			case 1:
+				for i := range w.Qe.Levels {
+					w.Qe.Levels[i].Status = "Revoked"
+				}
+				w.Resign()
+			case 2:
+				for i := range w.Tcb.Levels {
+					w.Tcb.Levels[i].Status = "OutOfDate"
+				}
+				w.Resign()
+			case 3:
+				w.Qe.MrSigner = strings.Repeat("ab", 32)
+				w.Resign()
+			}
+			return w.Case(world.LColl, "c16-variant", fmt.Sprint(k%4))
+		}
+		var soloV [4]bool
+		for k := 0; k < 4; k++ {
+			soloV[k] = mon.RunVerify(variant(k)).Accepted
+		}
+		if !soloV[0] || soloV[1] || soloV[2] || soloV[3] {
+			x.Broken(fmt.Sprintf("different-options: solo verdicts are %v, want [true false false false]", soloV))
+		}
+		msg := mon.MessageFor("parsed", variant(0).Quote)
+		dRounds, mism, done := x.Pick(6, 60), 0, 0
+		for round := 0; round < dRounds; round++ {
+			var wg sync.WaitGroup
+			start := make(chan struct{})
+			for g := 0; g < 16; g++ {
+				wg.Add(1)
+				go func(g int) {
+					defer wg.Done()
+					c := variant(g)
+					<-start
+					for it := 0; it < x.Pick(60, 200); it++ {
+						o, _ := mon.Options(c) // fresh options and getter per verification, this goroutine's documents
+						var e error
+						pv, _ := mon.Guard(func() { e = verify.TdxQuote(msg, o) })
+						mu.Lock()
+						done++
+						if pv != "" || (e == nil) != soloV[g%4] {
+							mism++
+							if mism <= 3 {
+								x.Violation("concurrent-verdict-different-options", fmt.Sprintf("round%d/g%d/variant%d", round, g, g%4), fmt.Sprintf("while other goroutines verify the same quote against other collateral, this goroutine's verdict is accepted=%v (%v, panic %q); alone its options give accepted=%v", e == nil, e, pv, soloV[g%4]), "verify", c)
+							}
+						}
+						mu.Unlock()
+					}
+				}(g)
+			}
+			close(start)
+			wg.Wait()
+			x.Note("concurrent-round-different-options", fmt.Sprint(round), true, false, true)
+		}
+		x.Extra["concurrent_calls_different_options"] = done
+		x.Require("concurrent-round-different-options", dRounds, 0, dRounds)
+
+		// two fetch policies over ONE transport: the CRL endpoints fail during the first 300 ms of a round. A verifier that does
+		// not retry must report the failure, a verifier that retries must get through — together as well as alone.
+		pRounds := x.Pick(3, 20)
+		for round := 0; round < pRounds; round++ {
+			c := wq.Case(world.LCrl, "c16-variant", "crl")
+			t0 := time.Now()
+			inner := &windowGetter{resp: c.Resp, failUntil: t0.Add(300 * time.Millisecond), match: func(u string) bool { return strings.Contains(u, "pckcrl") || strings.HasSuffix(u, ".der") || strings.Contains(u, "crl") }}
+			var wg sync.WaitGroup
+			start := make(chan struct{})
+			var late int64 // worst timer lateness seen while the round ran (a stalled machine explains a late request)
+			stopCal := make(chan struct{})
+			go func() {
+				for {
+					select {
+					case <-stopCal:
+						return
+					default:
+					}
+					s0 := time.Now()
+					time.Sleep(5 * time.Millisecond)
+					if over := int64(time.Since(s0) - 5*time.Millisecond); over > atomic.LoadInt64(&late) {
+						atomic.StoreInt64(&late, over)
+					}
+				}
+			}()
+			for g := 0; g < 8; g++ {
+				wg.Add(1)
+				go func(g int) {
+					defer wg.Done()
+					o, _ := mon.Options(c)
+					strict := g%2 == 0
+					if strict {
+						o.Getter = &trust.RetryHTTPSGetter{Timeout: 2 * time.Second, MaxRetryDelay: 0, Getter: inner}
+					} else {
+						o.Getter = &trust.RetryHTTPSGetter{Timeout: 3 * time.Second, MaxRetryDelay: 40 * time.Millisecond, Getter: inner}
+					}
+					<-start
+					var e error
+					began := time.Since(t0)
+					pv, _ := mon.Guard(func() { e = verify.TdxQuote(msg, o) })
+					end := time.Since(t0)
+					calm := time.Duration(atomic.LoadInt64(&late)) < 50*time.Millisecond
+					param := fmt.Sprintf("round%d/g%d/strict=%v", round, g, strict)
+					mu.Lock()
+					defer mu.Unlock()
+					switch {
+					case pv != "":
+						x.Violation("concurrent-fetch-policies", param, "panic: "+pv, "verify", c)
+					case strict && e == nil && (end < 250*time.Millisecond || began < 100*time.Millisecond && calm):
+						x.Violation("concurrent-fetch-policies", param, fmt.Sprintf("a verifier whose getter does not retry succeeded after %v although the CRL endpoints were failing for the first 300 ms: it got another verifier's download", end), "verify", c)
+					case strict && e == nil:
+						x.Inconclusive(fmt.Sprintf("%s: the non-retrying verifier only finished after %v (loaded machine)", param, end))
+					case !strict && e != nil && end < 2500*time.Millisecond:
+						x.Violation("concurrent-fetch-policies", param, fmt.Sprintf("a verifier whose getter retries for 3 s gave up after %v with %v: it was served under another verifier's fetch policy", end, e), "verify", c)
+					}
+					x.Note("concurrent-fetch-policies", param, e == nil, false, true)
+				}(g)
+			}
+			close(start)
+			wg.Wait()
+			close(stopCal)
+		}
+		x.Require("concurrent-fetch-policies", pRounds*3, pRounds*3, pRounds*8)
+	}
 
 	// ---------------- first use: fresh processes whose very first verifications are concurrent
 	if self, err := os.Executable(); err == nil {
